@@ -57,6 +57,8 @@ type Exec struct {
 	syncIDs    map[string]int
 	inE2       bool
 	eqMemo     map[[2]interface{}]*smt.Term
+	WatcherChan Value
+	WatcherDone Value
 	Decoded    Value                                       // value registered by verifrt.TOMLBytes for the decoder stubs
 	Params     map[string]int
 	Known      []KnownPred
